@@ -477,7 +477,8 @@ def var2h(se, nbsec_per_period=3600, maxgapsec=5*86400,
     display = np.int32(display)
     varvalues = se.values.astype(np.float64)
 
-    time = se.index.tz_localize(None).values
+    # epoch seconds whatever the storage resolution of the index
+    time = se.index.tz_localize(None).values.astype("datetime64[ns]")
     varsec = np.int64(time.astype(np.int64)/1000000000)
 
     # Determines start and end of time series
